@@ -19,8 +19,8 @@ EXTENDS Profiles, Json, IOUtils
 
 Rec == ndJsonDeserialize(IOEnv.TRACE)
 
-VARIABLES l, bad, memo, lastSeq
-vars == <<l, bad, memo, lastSeq>>
+VARIABLES l, bad, memo, lastSeq, extra
+vars == <<l, bad, memo, lastSeq, extra>>
 
 ToSet(t) == {t[i] : i \in DOMAIN t}
 
@@ -50,7 +50,15 @@ Judge(e) ==
   ELSE IF Expected(e, {"bidi_nsm_strict"}) = e.res THEN "known:bidi_nsm_strict"
   ELSE "mismatch"
 
-Init == l = 1 /\ bad = <<>> /\ memo = <<>> /\ lastSeq = <<>>
+\* Beyond the listed properties (documented on Rules/Profile: "the same string if no modifications were
+\* required or a new allocated string"): the result is BORROWED iff the argument was handed over borrowed and
+\* the operation left it unchanged.  Deviations are collected in `extra` and reported as notes, never as
+\* violations of a listed property.
+CowOk(e) ==
+  IF e.ev # "call" \/ e.borrowed = "-" THEN TRUE
+  ELSE (e.borrowed = "borrowed") = (e.arg \in {"str", "cow_b"} /\ IsOk(e.res) /\ e.res.ok = e.args[1])
+
+Init == l = 1 /\ bad = <<>> /\ memo = <<>> /\ lastSeq = <<>> /\ extra = <<>>
 
 Step ==
   /\ l <= Len(Rec)
@@ -58,10 +66,11 @@ Step ==
        /\ bad' = IF j = "ok" THEN bad ELSE Append(bad, [l |-> l, j |-> j])
        /\ memo' = IF Key(e) \in DOMAIN memo THEN memo ELSE (Key(e) :> e.res) @@ memo
        /\ lastSeq' = (e.thread :> e.seq) @@ lastSeq
+       /\ extra' = IF CowOk(e) THEN extra ELSE Append(extra, l)
   /\ l' = l + 1
 
 Spec == Init /\ [][Step]_vars
 
 Accepted == TLCGet("stats").diameter = Len(Rec) + 1
-Report == (l = Len(Rec) + 1) => PrintT(<<"BAD", ToJson(bad)>>)
+Report == (l = Len(Rec) + 1) => (PrintT(<<"BAD", ToJson(bad)>>) /\ PrintT(<<"EXTRA", ToJson(extra)>>))
 =============================================================================
